@@ -73,6 +73,12 @@ func c06eval(r *vx.R, c c06case) {
 			c06arena = guard.New(2)
 		}
 		at := func(b []byte) []byte {
+			if c.Cross == 1<<20 {
+				return c06arena.Head(b)
+			}
+			if c.Cross == 1<<21 {
+				return c06arena.Tail(b)
+			}
 			off := guard.Page + c.Cross - len(b)
 			if off < 0 {
 				off = 0
@@ -110,6 +116,25 @@ func c06eval(r *vx.R, c c06case) {
 	}
 	if !bytes.Equal(recN, keepRN) || !bytes.Equal(recP, keepRP) || !bytes.Equal(recA, keepRA) {
 		r.Violation("seal:writes-behind-input", "Seal changed bytes that follow an input inside its capacity", c)
+	}
+	// the same message appended to a destination that already holds data and has no room (the result needs a new buffer,
+	// into which those bytes are carried over): prefix lengths run through the residues of 64- and 128-byte copy loops
+	if c.PtLen <= 4200 && (c.PtLen+2*c.AadLen)%5 == 0 {
+		r.Eval(1)
+		pl := []int{1, 17, 63, 65, 100, 127, 129, 193, 255, 257, 320, 449, 1000, 1025, 4097}[(c.PtLen/5+c.AadLen)%15]
+		prefix := vx.Fill("c06prefix", pl)
+		dst := append(make([]byte, 0, pl), prefix...)
+		var got2 []byte
+		kind, msg := vx.TryFault(func() { got2 = a.Seal(dst, nonce, pt, aad) })
+		if kind != "" {
+			r.Violation("seal:panic:append-to-full-dst", fmt.Sprintf("Seal panicked (%s) with a %d-byte destination without room: %s", kind, pl, msg), c)
+		} else if len(got2) != pl+len(want) || !bytes.Equal(got2[:pl], prefix) || !bytes.Equal(got2[pl:], want) {
+			what := "output"
+			if len(got2) >= pl && !bytes.Equal(got2[:pl], prefix) {
+				what = "prefix"
+			}
+			r.Violation("seal:append-to-full-dst:"+what, fmt.Sprintf("Seal(dst of %d bytes without room, pt=%d, aad=%d): the result is not dst followed by the SP 800-38D output (wrong %s) [%s]", pl, c.PtLen, c.AadLen, what, path), c)
+		}
 	}
 	// the same message sealed the way a record layer does it: one buffer header|payload|room, dst = additional data =
 	// header, payload encrypted in place behind it
@@ -206,6 +231,33 @@ func c06enumerate(emit func(c c06case)) {
 					c.NLen = l
 				}
 				emit(c)
+			}
+		}
+	}
+	// (i) placement: the argument STARTS right behind an inaccessible page (Cross = 1<<20 marks it) or ends right in front
+	// of one (Cross = 1<<21): a read in front of or behind the argument faults, for every short length
+	for _, arg := range []string{"aad", "pt", "nonce"} {
+		for _, edge := range []int{1 << 20, 1 << 21} {
+			for l := 1; l <= 70; l++ {
+				c := c06case{Key: "s6", NLen: 12, PtLen: 21, AadLen: 9, Tag: 16, Group: "placement-edge:" + arg, CrossArg: arg, Cross: edge}
+				switch arg {
+				case "aad":
+					c.AadLen = l
+				case "pt":
+					c.PtLen = l
+				case "nonce":
+					if l == 12 {
+						continue
+					}
+					c.NLen = l
+				}
+				emit(c)
+				if arg == "pt" && l <= 20 {
+					for _, tag := range []int{12, 13, 15} {
+						c.Tag = tag
+						emit(c)
+					}
+				}
 			}
 		}
 	}
